@@ -21,9 +21,9 @@ SPEC = {
     "modules": ["HC.Props.C11", "HC.Pure.Sha1"],
     "extracted": ["Guards", "WsGuards"],
     "technique": "Lean 4: Handshake(headers) characterised as a function of the LAST occurrence of each header (scan = merge, by induction over arbitrary header lists), is_valid <-> a declarative validSpec over the header list for both carriers, onRequest 400/no-app vs connect-first, accept rendering = explicit header list with the token instantiated by an executable SHA-1/base64 (RFC 6455 sample checked by kernel evaluation), refused accept = no-op, 403, denial response by induction over body chunks, disconnect code per closing order; tied by differential runs of the real WSStream over the exhaustive header-presence lattice and by end-to-end runs on asyncio+trio over HTTP/1.1 and HTTP/2 with an independent wsproto client",
-    "level_text": "Proved in Lean for ALL header lists (any length, duplicates, any case) and both carriers: Handshake(headers, v).is_valid() = True iff validSpec (last occurrence of each header, names case-insensitive; Connection a comma list with an `upgrade` token in any case; Upgrade = websocket in any case; Sec-WebSocket-Version exactly 13; key / Connection / Upgrade demanded for EVERY version string other than '2' / '3', i.e. whatever an HTTP/1 request line states - the tests over self.http_version are extracted from is_valid and accept (WsGuards.versionRefused / http1Handshake / http1Accept; version_refused_iff, http1_handshake_iff, http1_accept_iff, accept_test_is_valid_test); never below 1.1) and every token-list header ASCII; for every version h11 can hand over (d.d: h11_version_not_multiplexed) a handshake lacking key / Connection: upgrade / Upgrade: websocket is refused with 400 and no application (h1_incomplete_refused, h1_incomplete_400_no_app - the clause F102 broke for 1.2, 2.0, 9.9 ...), a complete one is valid iff the version is not below 1.1 (h1_complete_valid_iff) and its accept is a 101 with upgrade / connection (h1_accept_is_101); header names matched case-insensitively because Handshake.__init__ lower-cases them (handshake_names_lowercased over the extracted WsGuards.handshakeName) - is_valid_iff (no side condition) / is_valid_false_iff / non_ascii_is_400, with the one remaining raise-instead-of-400 boundary as a theorem (missing_upgrade_raises, unreachable through H11Protocol); invalid => 400 + closed + nothing put, ever (invalid_400_no_app, never_started_never_put); valid => exactly [websocket.connect] put and nothing written (valid_connect_first); accept => 101/200 with [subprotocol iff given (and then offered)] ++ [extensions] ++ [sec-websocket-accept = base64(sha1(key ++ GUID))] ++ [upgrade, connection on 1.1] ++ validated extra headers (accept_rendered, accept_ok_iff, accept_sent, accept_token_rfc6455), refused accept = state and wire untouched (accept_refused_is_noop); close => 403 (close_403); HTTP-response extension => exactly that status/headers/body chunks/end once (http_response_exact); disconnect code 1000 iff CLOSED/HTTPCLOSED else 1006 (disconnect_code), 1000 after the application's close (app_close_1000, simultaneous_close_1000), 1006 when lost (lost_1006).  disconnect_code_client_close: after a client-initiated close the application is told the client's code (1005 if none); non_ascii_is_400: a non-ASCII token-list header makes the handshake invalid instead of raising (F13 and F33 were repaired in the repository).",
+    "level_text": "Proved in Lean for ALL header lists (any length, duplicates, any case) and both carriers: Handshake(headers, v).is_valid() = True iff validSpec (last occurrence of each header, names case-insensitive; Connection a comma list with an `upgrade` token in any case; Upgrade = websocket in any case; Sec-WebSocket-Version exactly 13; key / Connection / Upgrade demanded for EVERY version string other than '2' / '3', i.e. whatever an HTTP/1 request line states - the tests over self.http_version are extracted from is_valid and accept (WsGuards.versionRefused / http1Handshake / http1Accept; version_refused_iff, http1_handshake_iff, http1_accept_iff, accept_test_is_valid_test); never below 1.1) and every token-list header ASCII; for every version h11 can hand over (d.d: h11_version_not_multiplexed) a handshake lacking key / Connection: upgrade / Upgrade: websocket is refused with 400 and no application (h1_incomplete_refused, h1_incomplete_400_no_app - the clause F102 broke for 1.2, 2.0, 9.9 ...), a complete one is valid iff the version is not below 1.1 (h1_complete_valid_iff) and its accept is a 101 with upgrade / connection (h1_accept_is_101); header names matched case-insensitively because Handshake.__init__ lower-cases them (handshake_names_lowercased over the extracted WsGuards.handshakeName) - is_valid_iff (no side condition) / is_valid_false_iff / non_ascii_is_400, with the one remaining raise-instead-of-400 boundary as a theorem (missing_upgrade_raises, unreachable through H11Protocol); invalid => 400 + closed + nothing put, ever (invalid_400_no_app, never_started_never_put); valid => exactly [websocket.connect] put and nothing written (valid_connect_first); accept => 101/200 with [subprotocol iff given (and then offered)] ++ [extensions] ++ [sec-websocket-accept = base64(sha1(key ++ GUID))] ++ [upgrade, connection on 1.1] ++ validated extra headers (accept_rendered, accept_ok_iff, accept_sent, accept_token_rfc6455), and this for EVERY container the application gives the extra headers in - ASGI says Iterable: the traversals Handshake.accept performs over additional_headers are extracted in order (WsGuards.acceptExtraPasses) and run on a model of an iterable that a one-shot form (generator / iterator / map object) lets be traversed once (HC/Stream/WsIter.lean): accept_extra_any_iterable / accept_any_iterable - the result is the one for the list of its items (check_then_emit, faithful_sound: one checking-and-emitting traversal, or a copy first); refused accept = state and wire untouched (accept_refused_is_noop); close => 403 (close_403); HTTP-response extension => exactly that status/headers/body chunks/end once (http_response_exact); disconnect code 1000 iff CLOSED/HTTPCLOSED else 1006 (disconnect_code), 1000 after the application's close (app_close_1000, simultaneous_close_1000), 1006 when lost (lost_1006).  disconnect_code_client_close: after a client-initiated close the application is told the client's code (1005 if none); non_ascii_is_400: a non-ASCII token-list header makes the handshake invalid instead of raising (F13 and F33 were repaired in the repository).",
     "level_note": "Trusted: Lean kernel; model HC/Stream/Ws.lean tied by differential runs; wsproto's extension negotiation result is a parameter of the model (taken from the run), its connection-state machine is modelled (connSend / connRecvClose) and sampled; H11Protocol's / H2Protocol's routing (which requests reach a WSStream) is exercised end to end only; HC.Pure.Sha1 is compared on every run with wsproto.utilities.generate_accept_token and with wsproto's own client handshake.",
-    "rule": "direct: exhaustive lattice over {connection, upgrade, key, version} x 6 states x HTTP version {1.0, 1.1, 2}, {connection, upgrade, key} x 4 states x version header {ok, bad, absent} x request-line version {1.2, 1.9, 2.0, 3.0, 9.9, 0.9} on the HTTP/1 carrier, random subprotocol/extension offers, application decision sequences up to length 4 over the websocket send alphabet, closing orders {client first (1000, 1001, 3000, no code), application first, simultaneous, abrupt}; e2e: handshake classes (incl. request-line versions 1.2 / 1.9 / 2.0 / 3.0 / 9.9 / 0.9 complete, key-less, bad version header, duplicated Connection / Upgrade; header names per header in lower / Capitalised / UPPER case with h11_pass_raw_headers on and off) x decisions x closing orders x carrier x worker, and the upgrade as the k-th request of its connection below / at keep_alive_max_requests (1, 2, 3) incl. wsproto's own client as oracle; distinct = distinct (layer, carrier, worker, header-state vector, decision classes, closing order); non-trivial = handshake invalid, or a decision other than a bare accept, or a closing order other than abrupt",
+    "rule": "direct: exhaustive lattice over {connection, upgrade, key, version} x 6 states x HTTP version {1.0, 1.1, 2}, {connection, upgrade, key} x 4 states x version header {ok, bad, absent} x request-line version {1.2, 1.9, 2.0, 3.0, 9.9, 0.9} on the HTTP/1 carrier, random subprotocol/extension offers, application decision sequences up to length 4 over the websocket send alphabet, the headers of accept / http.response.start given as list / tuple / list of lists / iterator / generator / generator expression / map object (every form x carrier x with / without subprotocol x accepted and refused header sets; every other header-bearing random decision in a non-list form; Handshake.accept against the extracted traversals per form: c11.extra), closing orders {client first (1000, 1001, 3000, no code), application first, simultaneous, abrupt}; e2e: handshake classes (incl. request-line versions 1.2 / 1.9 / 2.0 / 3.0 / 9.9 / 0.9 complete, key-less, bad version header, duplicated Connection / Upgrade; header names per header in lower / Capitalised / UPPER case with h11_pass_raw_headers on and off) x decisions x closing orders x carrier x worker, and the upgrade as the k-th request of its connection below / at keep_alive_max_requests (1, 2, 3) incl. wsproto's own client as oracle, and accept / denial response with headers in every container form x carrier x worker; distinct = distinct (layer, carrier, worker, header-state vector, decision classes, closing order); non-trivial = handshake invalid, or a decision other than a bare accept, or a closing order other than abrupt",
     "trusted": ["wsproto client handshake (WSConnection CLIENT) as oracle for an acceptable 101", "h11 / h2 client parsers"],
     "partial": ["duplicated handshake headers whose occurrences disagree and an HTTP/2 `:protocol` other than `websocket` are treated as unspecified by the monitor (the theorems state what the code does: last occurrence wins; `:protocol` is not looked at)"],
     "assumptions": ["requests are syntactically valid HTTP (h11 / h2 accept them); header names reach the stream lower-cased on HTTP/2, lower-cased or (h11_pass_raw_headers) as the client wrote them on HTTP/1"],
